@@ -260,6 +260,7 @@ class Ctx:
         self.violations = []  # unknown
         self.known_hits = {}  # finding id -> count
         self.drift = []
+        self.outside_obs = {}
         self.notes = {}
         self.assumptions = []
         self.rule = ""
@@ -282,6 +283,10 @@ class Ctx:
 
     def note(self, k, v):
         self.notes[k] = v
+
+    def outside(self, what):
+        """behaviour observed in a growth phase that no listed property covers: informational, never a verdict"""
+        self.outside_obs[what] = self.outside_obs.get(what, 0) + 1
 
     def model_drift(self, what):
         if len(self.drift) < 50:
@@ -340,6 +345,8 @@ class Ctx:
             rej.append((int(v["tid"]) - 1, int(v["l"]), v["why"]))
         for v in parse_printed_json(res, tag="DRIFT"):
             self.model_drift(f"{module}: trace {int(v['tid']) - 1} step {v['l']}: {v['why']}")
+        for v in parse_printed_json(res, tag="OUTSIDE"):
+            self.outside(v["why"])
         self.traces_validated += len(traces)
         return sorted(set(rej))
 
@@ -359,6 +366,8 @@ class Ctx:
             "model_drift": self.drift[:20],
             "known_findings_printed": sorted(self.known_hits),
         }
+        if self.outside_obs:
+            cov["outside_listed_properties"] = [{"observation": k, "count": n} for k, n in sorted(self.outside_obs.items())]
         if self.exhaustive is not None:
             cov["exhaustive"] = self.exhaustive
         cov.update(self.notes)
@@ -379,6 +388,8 @@ class Ctx:
             print(f"KNOWN-FINDING: property={self.pid} {f['site']}: {f['class']} ({n} observations)")
         for d in self.drift[:10]:
             print(f"MODEL-DRIFT: property={self.pid} {d}")
+        for k, n in sorted(self.outside_obs.items()):
+            print(f"OUTSIDE-LISTED-PROPERTIES: (informational, seen while checking {self.pid}) {k} ({n} observations)")
         for v in self.violations:
             print(f"  violation detail: {v.what}")
             print(f"VIOLATION property={self.pid} replay={v.replay}")
